@@ -424,7 +424,7 @@ def _subst(t, args):
     return tuple(_subst(x, args) if isinstance(x, tuple) else x for x in t)
 
 
-def struct_view(M, t, adt_simple):
+def struct_view(M, t, adt_simple, bi=None):
     """{field name: term} when `t` denotes a freshly built `adt_simple` value: a struct literal, or a
     call of a crate-local constructor whose body returns one struct literal of its parameters
     (parameters substituted by the call's arguments).  None otherwise."""
@@ -439,12 +439,18 @@ def struct_view(M, t, adt_simple):
                         return {f["name"]: x for f, x in zip(v["fields"], t[2])}
         return None
     if t[0] == "call" and t[1][0] == adt_simple:
+        # several ADTs share a simple name (array / vec `Join`): when the calling body is known, the call site says which
+        owner_c = None
+        if bi is not None and len(t) > 3:
+            s_ = bi.by_block.get(t[3])
+            if s_ is not None and not s_.callee.indirect:
+                owner_c = s_.callee.owner_c
         for b in F.bodies:
             if b.name == t[1][1] and b.kind == "AssocFn" and b.impl_self is not None and (M.adt_of_type(b.impl_self) or "").rsplit("::", 1)[-1] == adt_simple \
-                    and b.impl_trait is None:
+                    and b.impl_trait is None and (owner_c is None or M.adt_of_type(b.impl_self) == owner_c):
                 rets = returned_values(M.info(b))
                 if len(rets) == 1:
-                    inner = struct_view(M, rets[0][3], adt_simple)
+                    inner = struct_view(M, rets[0][3], adt_simple, bi=M.info(b))
                     if inner is not None:
                         return {k: _subst(v, t[2]) for k, v in inner.items()}
         return None
